@@ -23,6 +23,7 @@ from typing import cast, Any, Optional, Union, NoReturn
 from urllib.parse import urlsplit
 from urllib.request import urlopen
 from urllib.error import URLError
+from http.client import HTTPException
 from xml.sax.saxutils import escape
 
 import elementpath.aliases as ta
@@ -1290,7 +1291,7 @@ def evaluate__unparsed_text(self: XPathFunction, context: ta.ContextType = None)
             with urlopen(uri) as rp:
                 stream_reader = codecs.getreader(encoding)(rp)
                 text = stream_reader.read()
-        except URLError as err:
+        except (URLError, HTTPException) as err:
             raise self.error('FOUT1170', err) from None
         except ValueError as err:
             if len(self) > 1:
@@ -1300,7 +1301,7 @@ def evaluate__unparsed_text(self: XPathFunction, context: ta.ContextType = None)
                 with urlopen(uri) as rp:
                     stream_reader = codecs.getreader('UTF-16')(rp)
                     text = stream_reader.read()
-            except URLError as err:
+            except (URLError, HTTPException) as err:
                 raise self.error('FOUT1170', err) from None
             except ValueError as err:
                 raise self.error('FOUT1190', err) from None
@@ -1354,7 +1355,7 @@ def evaluate__unparsed_text_available(self: XPathFunction, context: ta.ContextTy
             for line in stream_reader:
                 if any(not is_xml_codepoint(ord(s)) for s in line):
                     return False
-    except URLError:
+    except (URLError, HTTPException):
         return False
     except ValueError:
         if len(self) > 1:
@@ -1369,7 +1370,7 @@ def evaluate__unparsed_text_available(self: XPathFunction, context: ta.ContextTy
             for line in stream_reader:
                 if any(not is_xml_codepoint(ord(s)) for s in line):
                     return False
-    except (ValueError, URLError):
+    except (ValueError, URLError, HTTPException):
         return False
     else:
         return True
